@@ -114,6 +114,8 @@ def make_env(P, servertype, pool, variant=None):
 
     fx = fixture.Fixture(servertype=servertype, COMMTIMEOUT=0.0, THREADPOOL_SIZE=pool, THREADPOOL_SIZE_MIN=1, variant=variant)
     fx.register(Svc(), "svc")
+    # daemon-wide annotations from a long-lived dict of the application (the documented Daemon.annotations() override point)
+    fx.daemon.reply_annotations = {"DMON": b"static"}
     return fx, slog
 
 
@@ -384,6 +386,10 @@ def run_history(fx, slog, rec, r, sername, nclients, nops):
     for i in range(total):
         rec.case((core.h64(repr(plans)), i, sername, fx.servertype), sample=pay if rec.evaluations % 1500 == 0 else None)
     check_history(fx, slog, clients, rec, pay)
+    if fx.daemon.reply_annotations != {"DMON": b"static"}:
+        rec.violation("daemon-annotations-dict-modified", "the dict returned by the application's Daemon.annotations() now holds %r: per-call data was written into it" % (
+            {k: bytes(v) for k, v in fx.daemon.reply_annotations.items()},), pay)
+        fx.daemon.reply_annotations = {"DMON": b"static"}
 
 
 def sequential_reuse(fx, slog, rec, r, sername):
